@@ -148,52 +148,19 @@ fn lex_combining_op__no_operator_input_untouched() {
     kani::cover!(true);
 }
 
-#[kani::proof]
-#[kani::unwind(4)]
-fn probe_a() {
-    lexes!(LogicalOp, "or", 2, LogicalOp::Or);
+macro_rules! probe {
+    ($name:ident, $s:literal, $n:literal, $v:pat) => {
+        #[kani::proof]
+        #[kani::unwind(4)]
+        fn $name() {
+            let s: &'static str = $s;
+            let r = LogicalOp::lex(s);
+            assert!(matches!(&r, Ok(($v, rest)) if is_suffix_at(s, rest, $n)));
+            std::mem::forget(r);
+        }
+    };
 }
-
-#[kani::proof]
-#[kani::unwind(4)]
-fn probe_b() {
-    lexes!(LogicalOp, "||", 2, LogicalOp::Or);
-}
-
-#[kani::proof]
-#[kani::unwind(4)]
-fn probe_c() {
-    let r = expect("or", "or");
-    assert!(r.is_ok());
-    std::mem::forget(r);
-}
-
-#[kani::proof]
-#[kani::unwind(4)]
-fn probe_d() {
-    let r = expect("or", "or");
-    assert!(r.is_ok());
-    drop(r);
-}
-
-#[kani::proof]
-#[kani::unwind(4)]
-fn probe_e() {
-    let r = expect("or", "||");
-    assert!(r.is_err());
-    drop(r);
-}
-
-#[kani::proof]
-#[kani::unwind(4)]
-fn probe_f() {
-    let r: Result<&str, LexError<'_>> = Err((LexErrorKind::ExpectedLiteral("x"), "y"));
-    drop(r);
-}
-
-#[kani::proof]
-#[kani::unwind(4)]
-fn probe_g() {
-    let r = LexErrorKind::ExpectedLiteral("x");
-    drop(r);
-}
+probe!(probe_1, "or", 2, LogicalOp::Or);
+probe!(probe_2, "||", 2, LogicalOp::Or);
+probe!(probe_3, "xor", 3, LogicalOp::Xor);
+probe!(probe_4, "^^", 2, LogicalOp::Xor);
